@@ -686,7 +686,7 @@ pub fn c18(h: &mut H) {
             let kp = KeyPair::<CL03<CL1024Sha256>>::generate();
             let path = std::env::temp_dir().join(format!("zk-verif-keypair-{}.json", std::process::id()));
             let ps = path.to_string_lossy().to_string();
-            let _ = std::fs::write(&path, vec![b' '; 100_000]);
+            let _ = std::fs::write(&path, vec![b'x'; 100_000]);
             kp.write_keypair_to_file(Some(ps.clone()));
             let text = std::fs::read_to_string(&path).unwrap_or_default();
             let _ = std::fs::remove_file(&path);
